@@ -144,6 +144,9 @@ def obligations():
         obs += split(base, streams=[1]) + split(base, streams=[2], s0_dir=D, s1_dir=D)
     obs.append(unbounded.cascade_obligation("C05.cascade.rows.u"))
     obs += split(unbounded.content_obligation("C05.content.rows.u"), hot_streams=[1, 2], side=["hot", "cold"], is_shifted=[True, False])
+    # symbolic heat-capacity flow rates: one stream (with two, the induction step is a product-of-unknowns identity the solver does not
+    # decide within the budget; the {1, 3} kW/K instances above cover two streams)
+    obs += split(unbounded.content_cp_obligation("C05.content.rows.cp.u"), hot_streams=[1], side=["hot", "cold"], is_shifted=[True, False])
     obs.append(Obligation("C05.projection.b", ob_projection, kind="bounded", bound="tables of 2..4 rows with monotone composite curves, all values symbolic",
                           functions=[pta._insert_temperature_interval_into_pt_at_constant_h, pta._get_T_start_on_opposite_cc], max_paths=100000,
                           doc="PROJECTION: inserted rows inside the table and on the opposite curve; curves unchanged"))
